@@ -26,50 +26,17 @@ theorem C04_gen_constants :
 theorem C04_gen_maxFill_safe : 0 < Gen.Constants.huff_maxFill ∧ Gen.Constants.huff_maxFill + (symbolCount - 1 - matchBase) < N := by
   decide
 
-set_option maxRecDepth 4000 in
-/-- `GetOffsetModifiers` as translated from the clang AST equals the model's table, for every 8-bit code -/
-theorem C04_gen_offsetModifiers : ∀ o : Nat, o < 256 →
+/-- `GetOffsetModifiers` as translated from the clang AST equals the model's table, for every 8-bit code (by kernel
+    evaluation of all 256 codes: any spelling of the function inside the translator's fragment is accepted) -/
+theorem C04_gen_offsetModifiers_table : Gen.Formulas.gen_GetOffsetModifiers_translated = true →
+    (List.range 256).all (fun o => decide (Gen.Formulas.gen_GetOffsetModifiers (Int.ofNat o)
+      = (Int.ofNat (offsetMods o).1, Int.ofNat (offsetMods o).2))) = true := by decide +kernel
+
+theorem C04_gen_offsetModifiers : Gen.Formulas.gen_GetOffsetModifiers_translated = true → ∀ o : Nat, o < 256 →
     Gen.Formulas.gen_GetOffsetModifiers (Int.ofNat o) = (Int.ofNat (offsetMods o).1, Int.ofNat (offsetMods o).2) := by
-  intro o h
-  have ho : (Int.ofNat o) = (o : Int) := rfl
-  unfold Gen.Formulas.gen_GetOffsetModifiers offsetMods Gen.Formulas.castU
-  rw [ho]
-  have e1 : ((1:Int)).toNat = 1 := rfl
-  have e2 : ((2:Int)).toNat = 2 := rfl
-  have e3 : ((3:Int)).toNat = 3 := rfl
-  have e4 : ((4:Int)).toNat = 4 := rfl
-  have p32 : (2:Int) ^ 32 = 4294967296 := by decide
-  have p4 : (2:Int) ^ 4 = 16 := by decide
-  have p3 : (2:Int) ^ 3 = 8 := by decide
-  have p2 : (2:Int) ^ 2 = 4 := by decide
-  have p1 : (2:Int) ^ 1 = 2 := by decide
-  simp only [e1, e2, e3, e4, p32, p4, p3, p2, p1]
-  by_cases c1 : o < 32
-  · have : ((o:Int) < 32 % 4294967296) := by omega
-    simp only [c1, this, if_true]; simp
-  · have n1 : ¬ ((o:Int) < 32 % 4294967296) := by omega
-    by_cases c2 : o < 80
-    · have : ((o:Int) < 80 % 4294967296) := by omega
-      simp only [c1, c2, n1, this, if_true, if_false]
-      simp; omega
-    · have n2 : ¬ ((o:Int) < 80 % 4294967296) := by omega
-      by_cases c3 : o < 144
-      · have : ((o:Int) < 144 % 4294967296) := by omega
-        simp only [c1, c2, c3, n1, n2, this, if_true, if_false]
-        simp; omega
-      · have n3 : ¬ ((o:Int) < 144 % 4294967296) := by omega
-        by_cases c4 : o < 192
-        · have : ((o:Int) < 192 % 4294967296) := by omega
-          simp only [c1, c2, c3, c4, n1, n2, n3, this, if_true, if_false]
-          simp; omega
-        · have n4 : ¬ ((o:Int) < 192 % 4294967296) := by omega
-          by_cases c5 : o < 240
-          · have : ((o:Int) < 240 % 4294967296) := by omega
-            simp only [c1, c2, c3, c4, c5, n1, n2, n3, n4, this, if_true, if_false]
-            simp; omega
-          · have n5 : ¬ ((o:Int) < 240 % 4294967296) := by omega
-            simp only [c1, c2, c3, c4, c5, n1, n2, n3, n4, n5, if_false]
-            simp; omega
+  intro ht o h
+  have := List.all_eq_true.mp (C04_gen_offsetModifiers_table ht) o (List.mem_range.mpr h)
+  simpa using this
 
 attribute [local irreducible] Spec.run TA.init
 
